@@ -348,6 +348,9 @@ TRUSTED_BASE = [
     "the hand-written Lean model is tied to /repo's working tree by the correspondence check of "
     "this run (Python harness + compiled Lean driver, floats exchanged as bit patterns) and by "
     "the AST extractor (harness/extract.py); both are trusted code",
-    "real-number theorems say nothing about rounding; parametric theorems assume IEEE '<' is a "
-    "strict order; CPython, NumPy, numba/LLVM, SciPy, the OS are modelled, not verified",
+    "real-number theorems say nothing about rounding; IEEE '<' is proved irreflexive, transitive and "
+    "well-founded on Lean's Float from its logical model (Proofs/FloatOrder.lean), negative "
+    "transitivity (false with NaN) remains a hypothesis of the C04 edge bound; that the compiled "
+    "Float operations agree with the logical model is Lean's runtime contract; CPython, NumPy, "
+    "numba/LLVM, SciPy, the OS are modelled, not verified",
 ]
